@@ -284,7 +284,7 @@ type c38Route struct {
 	Resource string // filter / cursor family
 	Params   []c38Param
 	Write    bool // accepts Idempotency-Key
-	Shards   int    // >1: the systematic mutants of each variant are split over that many cases (long, crash-prone routes)
+	Shards   int  // >1: the systematic mutants of each variant are split over that many cases (long, crash-prone routes)
 }
 
 var (
@@ -443,7 +443,7 @@ func c38Routes() []*c38Route {
 		return c38WithFilter(s, c38New("GET", "/v2", c38L(), "logs").q("pageSize", "2"), "logs", v)
 	}))
 	add(shard(12, mk("POST /v2/{ledger}/logs/import", 1, "import", "", false, nil, func(s *c38State, v int) c38Req {
-		return c38New("POST", "/v2", c38P("ledger", "@@NEWLEDGER@@"), "logs/import").raw(strings.Join(s.export, "\n") + "\n").h("Content-Type", "application/octet-stream")
+		return c38New("POST", "/v2", c38P("ledger", "@@NEWLEDGER@@"), "logs/import").raw(strings.Join(s.export, "\n")+"\n").h("Content-Type", "application/octet-stream")
 	})))
 	add(mk("POST /v2/{ledger}/logs/export", 1, "", "", false, nil, func(s *c38State, v int) c38Req { return c38New("POST", "/v2", c38L(), "logs/export") }))
 
@@ -636,6 +636,14 @@ func c38Routes() []*c38Route {
 		}
 		return r
 	}))
+	// long first variants: split their systematic mutants over several cases
+	for name, n := range map[string]int{"GET /v2/{ledger}/transactions": 3, "POST /v2/{ledger}/transactions": 2, "GET /v2/{ledger}/volumes": 2, "GET /v2/{ledger}/logs": 2, "GET /v2/{ledger}/accounts": 2, "POST /v2/{ledger}/schemas/{version}": 2} {
+		for _, r := range rs {
+			if r.Name == name {
+				r.Shards = n
+			}
+		}
+	}
 	return rs
 }
 
@@ -753,7 +761,9 @@ func c38OpToReq(o sim.Op) (c38Req, bool) {
 // c38SeedRequests: the fixed part of the history (every id / key / template the
 // valid generators refer to exists afterwards).
 func c38SeedRequests() []c38Req {
-	tx := func(body string, kv ...string) c38Req { return c38New("POST", "/v2/l1/transactions").raw(body).h(kv...) }
+	tx := func(body string, kv ...string) c38Req {
+		return c38New("POST", "/v2/l1/transactions").raw(body).h(kv...)
+	}
 	return []c38Req{
 		c38New("POST", "/v2/l1").raw(`{"metadata":{"a":"b"}}`),
 		c38New("POST", "/v2/l2").raw(`{"bucket":"b2"}`),
